@@ -26,6 +26,7 @@ func (ex *Exec) unop(fr *frame, instr *ssa.UnOp, x Value) Value {
 	case token.MUL: // load
 		p := ex.derefPtr(fr, x, "load")
 		ex.sharedAccess(fr, instr.X)
+		ex.raceRead(fr, p, "memory")
 		return load(p)
 	case token.ARROW:
 		ch := x.(*Chan)
@@ -324,6 +325,7 @@ func (ex *Exec) lookup(fr *frame, instr *ssa.Lookup, x, idx Value) Value {
 	switch x := x.(type) {
 	case *Map:
 		var elemT types.Type = instr.X.Type().Underlying().(*types.Map).Elem()
+		ex.raceMapRead(fr, x)
 		i := ex.mapFind(x, idx)
 		var v Value
 		ok := i >= 0
@@ -471,6 +473,7 @@ func (ex *Exec) rangeIter(fr *frame, x Value, t types.Type) iter {
 		if x == nil {
 			return &mapIter{m: &Map{}}
 		}
+		ex.raceMapRead(fr, x)
 		return &mapIter{m: x, snap: append([]mapEntry(nil), x.Entries...)}
 	case *Term:
 		if !x.IsConst() {
@@ -612,6 +615,7 @@ func (ex *Exec) callBuiltin(fr *frame, fn *ssa.Builtin, args []Value) Value {
 		ex.chanClose(args[0].(*Chan))
 		return nil
 	case "delete":
+		ex.raceMapWrite(fr, args[0].(*Map))
 		ex.mapDelete(args[0].(*Map), args[1])
 		return nil
 	case "print", "println":
